@@ -7,7 +7,7 @@ import sim_common
 
 def run(tier, seed):
     chk = vlib.Check("C01", tier, seed)
-    n = 100 if tier == "quick" else 2400
+    n = 100 if tier == "quick" else 1200
     flav = ("asan",) if tier == "quick" else ("asan", "asan", "asan-ndebug")
     cases = sim_common.make_cases("C01", tier, seed, n, variants=(0,), fp_levels=(1, 2, 3, 10, 2, 10), sizes=(0, 0, 1, 0, 1) if tier == "quick" else (0, 1, 1, 2, 0), flavours=flav)
     sim_common.run_sim_cases(chk, cases, timeout=300)
